@@ -26,8 +26,11 @@ RULE = ("histories of add_verified_peer / discover_address / discover_services /
 ASSUMPTIONS = [
     "Peer objects are changed only through Network methods or before they are handed to the graph",
     "Behaviour the statement leaves open is accepted either way: services and known addresses of a removed peer, "
-    "a peer with a mix of blacklisted and other addresses, inheritance of services through the introducer, "
-    "get_introductions_from after an LRU eviction",
+    "a peer with a mix of blacklisted and other addresses, get_introductions_from after an LRU eviction",
+    "an address is walkable for a service if it was introduced for that service OR its introducer advertises the "
+    "service (both are what 'advertised services imply'; the second is the case the repository's own "
+    "test_get_walkable_by_service pins down for untagged introductions) - required only while the introducer's "
+    "advertisement is certain (never removed since)",
     "single-threaded use (graph_lock is not exercised)",
 ]
 
@@ -451,6 +454,13 @@ class Run:
                 if not must <= g:
                     self.fail("L4", "walkable:service", f"service {s}: addresses {sorted(must - g)} introduced for it "
                                                         f"are missing from {sorted(g)}")
+                via = {a for a, fi in model.first_intro.items()
+                       if model.services.get((fi[0], s)) == YES and model.known.get(a) == YES and a not in owned
+                       and not (old and fi[2])} - prov_addrs
+                if not via <= g:
+                    self.fail("L4", "walkable:introducer_service",
+                              f"service {s}: addresses {sorted(via - g)} were introduced by a peer that advertises the "
+                              f"service, but are missing from {sorted(g)}")
         # introductions (only asserted without cache pressure)
         if self.config["caches"][1] >= 500:
             for p in range(NP):
